@@ -379,7 +379,8 @@ Proof.
   - destruct b.
     + destruct (step_indexed_refines pages Hp s p o Hi) as (Ho & Hi').
       destruct (step_indexed pages s o) as [s' r]; destruct (spec_step pages p o) as [p' r'].
-      cbn in *. split; [assumption|]. unfold inv_lazy; cbn. repeat split; [assumption|discriminate].
+      cbn [fst snd] in *. split; [assumption|]. unfold inv_lazy; cbn [fst snd].
+      split; [reflexivity|split; [exact Hi'|discriminate]].
     + specialize (Hsv eq_refl).
       destruct o as [|k]; cbn [step_noindex spec_step_noindex].
       * (* ReadPage: same function in both modes *)
@@ -387,13 +388,17 @@ Proof.
         cbn [step_indexed] in Ho, Hi'.
         destruct (read_page pages s) as [s' r] eqn:E.
         destruct (spec_step pages p ReadPage) as [p' r'].
-        cbn in *. split; [assumption|]. unfold inv_lazy; cbn. repeat split; [assumption|].
+        cbn [fst snd] in *. split; [assumption|]. unfold inv_lazy; cbn [fst snd].
+        split; [reflexivity|split; [exact Hi'|]].
         intros _. unfold read_page in E. rewrite Hsv in E.
         apply (read_loop_spec pages Hp) in E; [|lia]. destruct E as (E & _). congruence.
-      * cbn. split; [reflexivity|]. unfold inv_lazy, inv_indexed; cbn.
-        destruct Hi as (_ & Hl & _). repeat split; try assumption.
-        destruct pages; reflexivity.
-  - cbn. split; [reflexivity|]. unfold inv_lazy; cbn. repeat split; [assumption|discriminate].
+      * cbn [seek_noindex fst snd]. split; [reflexivity|].
+        unfold inv_lazy, inv_indexed; cbn [fst snd index stream skip last serve_last].
+        destruct Hi as (_ & Hl & _).
+        split; [reflexivity|split; [split; [reflexivity|split; [exact Hl|]]|reflexivity]].
+        rewrite first_row_0. reflexivity.
+  - cbn [fst snd]. split; [reflexivity|]. unfold inv_lazy; cbn [fst snd].
+    split; [reflexivity|split; [exact Hi|discriminate]].
 Qed.
 
 Theorem lazy_refines : forall pages ops, positive pages ->
